@@ -241,6 +241,101 @@ class World(object):
         }
 
 
+# ----------------------------------------------------------------------------- part C: thread lifetimes (black box)
+def run_lifetimes(case):
+    """case = {"threads": [{"accesses": k, "ends_before_teardown": bool}...]}: real threads use one real ThreadedFactory through
+    its public API only; those marked so terminate, are joined, dereferenced and collected before teardown_factory is called
+    (a pool worker or an lcc.Thread that is gone when the scope ends); the others wait for the teardown and end afterwards.
+    Returns events [("created", thread, obj)], ("access", thread, obj), ("torn", obj)."""
+    import gc
+    import threading
+    from lemoncheesecake.helpers.threading import ThreadedFactory
+    ev, lock, counter = [], threading.Lock(), [0]
+
+    class F(ThreadedFactory):
+        def setup_object(self):
+            with lock:
+                counter[0] += 1
+                o = Obj(counter[0])
+                ev.append(("created", threading.current_thread().name, o.id))
+            return o
+
+        def teardown_object(self, obj):
+            with lock:
+                ev.append(("torn", obj.id))
+    fac = F()
+    done = threading.Event()
+
+    def body(k, stay):
+        for _ in range(k):
+            try:
+                o = fac.get_object()
+            except BaseException as e:
+                with lock:
+                    ev.append(("access", threading.current_thread().name, "raised %s" % type(e).__name__))
+                continue
+            with lock:
+                ev.append(("access", threading.current_thread().name, o.id))
+        if stay:
+            done.wait(20)
+    ths = []
+    for i, t in enumerate(case["threads"]):
+        th = threading.Thread(target=body, args=(t["accesses"], not t["ends_before_teardown"]), name="T%d" % i)
+        th.daemon = True
+        th.start()
+        ths.append((th, t["ends_before_teardown"]))
+    stay = []
+    for th, ends in ths:
+        if ends:
+            th.join(20)
+        else:
+            stay.append(th)
+    del ths, th
+    gc.collect()
+    import time
+    deadline = time.time() + 5       # the staying threads must have finished their accesses
+    want = sum(t["accesses"] for t in case["threads"])
+    while time.time() < deadline:
+        with lock:
+            if sum(1 for e in ev if e[0] == "access") >= want:
+                break
+        time.sleep(0.001)
+    fac.teardown_factory()
+    done.set()
+    for th in stay:
+        th.join(20)
+    return [list(e) for e in ev]
+
+
+def oracle_lifetimes(case, ev):
+    hits = []
+    created = {}
+    for e in ev:
+        if e[0] == "created":
+            created.setdefault(e[1], []).append(e[2])
+    for th, objs in created.items():
+        if len(objs) > 1:
+            hits.append(("lifetimes:several-per-thread", "thread %s got %d objects" % (th, len(objs))))
+    for e in ev:
+        if e[0] == "access" and created.get(e[1], [None])[0] != e[2]:
+            hits.append(("lifetimes:foreign-or-new-object", "thread %s was handed object %s, it created %s" % (e[1], e[2], created.get(e[1]))))
+    torn = [e[1] for e in ev if e[0] == "torn"]
+    for objs in created.values():
+        for o in objs:
+            if torn.count(o) == 0:
+                hits.append(("lifetimes:forgotten", "object %s (created by a thread that %s) was never torn down" % (
+                    o, "ended before the teardown" if any(t["ends_before_teardown"] for i, t in enumerate(case["threads"])
+                                                          if created.get("T%d" % i, [None])[0] == o) else "was still alive")))
+            elif torn.count(o) > 1:
+                hits.append(("lifetimes:torn-twice", "object %s torn down %d times" % (o, torn.count(o))))
+    return hits[:3]
+
+
+def gen_lifetimes(rng, tier):
+    n = rng.randint(1, 6)
+    return {"threads": [{"accesses": rng.choice([0, 1, 1, 2, 3]), "ends_before_teardown": rng.random() < 0.5} for _ in range(n)]}
+
+
 def run_schedule(case):
     w = World(case["n"], case["setup_fail"], case["td_fail"])
     obs = w.run(case["sch"])
@@ -591,14 +686,43 @@ def check(run):
         for h in oracle(ev):
             run.violation("oracle:" + h[0], h[1], {"part": "A", "case": w, "events": ev})
 
+    # ---- part C: thread lifetimes through the public API only (independent of the source lines: also judges a rewritten factory)
+    for i in range(60 if run.tier == "quick" else 1500):
+        case = gen_lifetimes(run.rng, run.tier)
+        ev = run_lifetimes(case)
+        run.evaluations += 1
+        run.count("lifetime_cases")
+        if sum(1 for t in case["threads"] if t["accesses"] and t["ends_before_teardown"]) and \
+                sum(1 for t in case["threads"] if t["accesses"] and not t["ends_before_teardown"]):
+            run.nontrivial.add("C:" + json.dumps(case, sort_keys=True))
+            run.count("lifetime_cases_mixed")
+        for h in oracle_lifetimes(case, ev):
+            if any(x["signature"] == "oracle:" + h[0] for x in run.oracle_hits):
+                continue
+            small = case
+            for k in range(len(case["threads"]) - 1, -1, -1):       # shrink: drop threads while it still fails the same way
+                c2 = {"threads": small["threads"][:k] + small["threads"][k + 1:]}
+                if c2["threads"] and any(x[0] == h[0] for x in oracle_lifetimes(c2, run_lifetimes(c2))):
+                    small = c2
+            run.violation("oracle:" + h[0], h[1], {"part": "C", "case": small, "events": run_lifetimes(small)})
+
     # ---- part A
     n = 250 if run.tier == "quick" else 6000
-    cases = [(WITNESS_INFLIGHT, run_schedule(WITNESS_INFLIGHT)[0]), (WITNESS_RAISE, run_schedule(WITNESS_RAISE)[0])]
+    cases = []
+    for w in (WITNESS_INFLIGHT, WITNESS_RAISE):
+        try:
+            cases.append((w, run_schedule(w)[0]))
+        except Hang:
+            pass                    # already reported above
+    hangs = 0
     for i in range(n):
         case = gen_case(run.rng, run.tier)
+        if hangs >= 3:              # the line-level scheduler does not fit this source any more: the tie is broken, stop waiting
+            break
         try:
             obs, ev = run_schedule(case)
         except Hang as e:
+            hangs += 1
             run.tie_broken("schedule did not run on the implementation", case=case, detail=str(e))
             continue
         run.evaluations += 1
@@ -681,6 +805,8 @@ def check(run):
                     spec, c = shards_b[k - len(shards)][idx]
                     run.tie_broken("model replay of the accesses of a real run = observed values", case=c, impl=spec)
     run.coverage["rule"] = (
+        "C: real threads using one real ThreadedFactory through its public API, some of them ended, joined and collected before "
+        "teardown_factory (exactly-once teardown of every created object, one object per thread); non-trivial = both kinds present.  "
         "A: seeded schedules (1-8 threads; shapes: framework = random interleaving of first accesses then teardown with "
         "everybody idle, racy = teardown_factory interleaved with first accesses, prefix/random) with random setup_object / "
         "teardown_object failures, executed by real threads on the real ThreadedFactory paused before every source line, and by "
@@ -692,6 +818,11 @@ def check(run):
 def replay(path):
     r = json.load(open(path))
     rp = r.get("replay") or {}
+    if rp.get("part") == "C":
+        ev = run_lifetimes(rp["case"])
+        hits = oracle_lifetimes(rp["case"], ev)
+        print(json.dumps({"case": rp["case"], "events": ev, "oracle": hits}, indent=1))
+        return 1 if hits else 0
     if rp.get("part") == "B":
         res = run_project(rp["spec"])
         hits = oracle_project(rp["spec"], res)
